@@ -5,6 +5,7 @@ cd /verif
 PATCH=/verif/seeded/$S/patch.diff; [ -f $PATCH ] || PATCH=/tmp/seed_out/$S/patch.diff
 git -C /repo worktree add -f --detach $WT HEAD >/dev/null 2>&1
 ( cd $WT && git apply $(realpath $PATCH) ) || { echo "cannot apply"; git -C /repo worktree remove --force $WT; exit 1; }
+cp /repo/src/fandango/language/parser/sa_fandango_cpp_parser.so $WT/src/fandango/language/parser/ 2>/dev/null
 VERIF_REPO=$WT ./check $P --tier quick > /tmp/seedtest_${S}_$P.out 2>&1; RC=$?
 git -C /repo worktree remove --force $WT
 echo "$S vs $P: exit=$RC  $(grep -c '^VIOLATION' /tmp/seedtest_${S}_$P.out) violation line(s); $(grep '^VIOLATION' /tmp/seedtest_${S}_$P.out | head -1)"
